@@ -7,7 +7,9 @@
 //   * make_filtration_non_decreasing: each value becomes the max over the simplex and its faces; true iff one changed;
 //   * prune_above_filtration(t): exactly the sublevel complex remains; true iff something was removed; the range
 //     afterwards lists what remains (cache dropped);
-//   * copy-assignment onto a tree whose cache is filled gives the source's range.
+//   * copy-assignment onto a tree whose cache is filled gives the source's range;
+//   * explicit initialize_filtration() / initialize_filtration(true) over an existing cache, and after assign_filtration;
+//   * move construction / assignment: target lists the source's range, the moved-from tree lists exactly what it holds.
 // usage: simplex_tree_sweep <seed> <samples-per-complex>    prints one JSON line
 #include <gudhi/Simplex_tree.h>
 #include <algorithm>
@@ -74,6 +76,23 @@ template <class Opt> static void one(const std::vector<unsigned>& K, unsigned lo
     // (4) copy-assignment onto a tree with a filled cache
     ST e; e.insert_simplex_and_subfaces({0, 1, 2, 3}, (V)1); (void)range_of(e); e = a; ++total;
     if (range_of(e) != want) fail(tag + ": after copy-assignment the filtration range is not the source's");
+    // (5) explicit re-initialisation over an existing cache: every simplex still exactly once, canonical order
+    { ST r = a; (void)range_of(r); r.initialize_filtration(); ++total;
+      if (range_of(r) != want) fail(tag + ": initialize_filtration() over an existing cache does not give the canonical range (" + std::to_string(range_of(r).size()) + " entries for " + std::to_string(K.size()) + " simplices)");
+      r.initialize_filtration(true); ++total;
+      if (range_of(r) != want) fail(tag + ": initialize_filtration(true) over an existing cache does not give the canonical range of the finite-valued simplices");
+      // raise a maximal simplex, refresh explicitly (the documented way after assign_filtration)
+      unsigned top = 0; for (unsigned m : K) { bool maximal = true; for (unsigned sg : K) if (sg != m && (sg & m) == m) maximal = false; if (maximal) top = m; }
+      std::map<unsigned, V> up = mono; up[top] = (V)5; r.assign_filtration(r.find(from_mask(top)), (V)5); r.initialize_filtration(); ++total;
+      if (range_of(r) != canonical<ST, V>(up)) fail(tag + ": after assign_filtration + initialize_filtration() the range is not the canonical one of the new values"); }
+    // (6) move: the target lists the source's range; the moved-from tree lists exactly its own (no) simplices and can be reused
+    { ST g = a; (void)range_of(g); ST h(std::move(g)); ++total;
+      if (range_of(h) != want) fail(tag + ": after move construction the target's filtration range is not the source's");
+      else if (range_of(g).size() != g.num_simplices()) fail(tag + ": the moved-from tree lists " + std::to_string(range_of(g).size()) + " simplices in its filtration range but holds " + std::to_string(g.num_simplices()));
+      else { for (unsigned m : byd) g.insert_simplex(from_mask(m), mono[m]); if (range_of(g) != want) fail(tag + ": a moved-from tree reused for the same complex does not list it canonically"); }
+      ST g2 = a; (void)range_of(g2); ST h2; h2.insert_simplex_and_subfaces({0, 1}, (V)0); (void)range_of(h2); h2 = std::move(g2); ++total;
+      if (range_of(h2) != want) fail(tag + ": after move assignment the target's filtration range is not the source's");
+      else if (range_of(g2).size() != g2.num_simplices()) fail(tag + ": after move assignment the moved-from tree's filtration range has " + std::to_string(range_of(g2).size()) + " entries but the tree holds " + std::to_string(g2.num_simplices()) + " simplices"); }
   } }
 int main(int argc, char** argv) {
   unsigned long long rng = 0x9E3779B97F4A7C15ull * (unsigned long long)((argc > 1 ? atol(argv[1]) : 0) + 1); int samples = argc > 2 ? atoi(argv[2]) : 3;
